@@ -8,7 +8,8 @@ C09-HOOKS   abstract types have both or neither of marshal/unmarshal, are regist
 C09-ASM     every JanetFuncDef field is consumed by the disassembler and produced by the assembler
 """
 from jv.facts import Program, AnalysisBroken
-from jv.util import is_ref, is_mem, strip_casts, switch_cases, case_name
+from jv.util import is_ref, is_mem, strip_casts, switch_cases, case_name, case_map
+from jv import flow
 from jv.witness import run_witnesses
 from rules.c03 import abstract_types
 
@@ -376,6 +377,192 @@ def _derived_rule(chk, prog):
                           "peg_unmarshal sets has_backref for %s but the compiler does not" % op)
 
 
+def _asmops_rule(chk, prog):
+    """disasm and asm are each other's inverse only if, for every instruction type, they agree on where each operand
+    sits, how wide it is and whether it is signed.  The assembler states this in doarg(a, kind, nth, nbytes, signed, x);
+    the disassembler either masks (unsigned) or shifts the word arithmetically (signed)."""
+    rule = "C09-ASMOPS"
+    chk.rule(rule, "for every instruction type the assembler's (position, width, signedness) of each operand equals the disassembler's decoding")
+    tu = prog.tus["asm.c"]
+    rd, dec = tu.funcs.get("read_instruction"), tu.funcs.get("janet_asm_decode_instruction")
+    if rd is None or dec is None:
+        raise AnalysisBroken("read_instruction / janet_asm_decode_instruction not found")
+    chk.analysed(rd)
+    chk.analysed(dec)
+
+    def arms(fn):
+        sw = [x for x in fn.nodes if x.k == "switch"]
+        if not sw:
+            raise AnalysisBroken("%s: no switch over the instruction type" % fn.name)
+        return sw[0], case_map(sw[0])
+    sw_r, cm_r = arms(rd)
+    sw_d, cm_d = arms(dec)
+    spec_r, spec_d, manual = {}, {}, set()
+    for x in sw_r.walk():
+        if x.k == "call" and x.callee == "doarg" and x.id in cm_r and len(x.args) >= 6:
+            nth, nb, sg = x.args[2].v, x.args[3].v, x.args[4]
+            for lab in cm_r[x.id]:
+                signed = sg.v
+                if signed is None:
+                    e = strip_casts(sg)
+                    if e.k == "bin" and e.op == "==" and is_ref(strip_casts(e.kids[1])):
+                        signed = 1 if strip_casts(e.kids[1]).name == lab else 0
+                if nth is None or nb is None or signed is None:
+                    manual.add(lab)
+                    continue
+                if nth == 0:
+                    manual.add(lab)       # value placed by hand (environment operand of JINT_SES)
+                    continue
+                spec_r.setdefault(lab, set()).add((nth * 8, nb * 8, bool(signed)))
+    for x in sw_d.walk():
+        if x.k == "call" and x.callee in ("tup1", "tup2", "tup3", "tup4") and x.id in cm_d:
+            ops = set()
+            for a in x.args[1:]:
+                sh = [y for y in a.walk() if y.k == "bin" and y.op == ">>"]
+                if not sh:
+                    continue
+                y = sh[0]
+                signed = y.kids[0].k == "cast" and (y.kids[0].t or "") in ("int32_t", "int")
+                shift = strip_casts(y.kids[1]).v
+                masks = [z for z in a.walk() if z.k == "bin" and z.op == "&" and strip_casts(z.kids[1]).v is not None]
+                width = strip_casts(masks[0].kids[1]).v.bit_length() if masks else (32 - shift if shift is not None else None)
+                ops.add((shift, width, signed))
+            for lab in cm_d[x.id]:
+                spec_d[lab] = ops
+    n = 0
+    for lab in sorted(set(spec_r) | set(spec_d)):
+        if not lab.startswith("JINT_"):
+            continue
+        if lab in manual:
+            chk.note("C09-ASMOPS: %s has a hand-placed operand in the assembler; not compared" % lab)
+            continue
+        n += 1
+        chk.instance(rule)
+        a, d = spec_r.get(lab, set()), spec_d.get(lab, set())
+        # same positions and signedness; the decoder may look at more bits of an unsigned operand than the assembler
+        # can set (JINT_S: 24-bit field, assembler limits slots to 16 bits), never at fewer
+        da = dict(((s_, g), w) for s_, w, g in a)
+        dd = dict(((s_, g), w) for s_, w, g in d)
+        if set(da) == set(dd) and all((dd[k] == da[k]) if k[1] else (dd[k] >= da[k]) for k in da):
+            chk.ok(rule, "%s: %s" % (lab, sorted(a)))
+        else:
+            def show(sp):
+                return ", ".join("bits %s..%s %s" % (s_, (s_ or 0) + (w or 0) - 1, "signed" if g else "unsigned") for s_, w, g in sorted(sp, key=str))
+            chk.violation(rule, "asm.c", dec.name, lab, dec.loc,
+                          "instruction type %s: the assembler encodes operands as [%s] but the disassembler decodes [%s]; a "
+                          "disassembled function does not assemble back to the same code" % (lab, show(a), show(d)))
+    chk.floor(rule, 10, n)
+
+
+def _intenc_rule(chk, prog):
+    """Variable-length integers: the writer picks the one-byte form for values up to a threshold and the reader must
+    take a lead byte as a one-byte value for exactly the same range - otherwise the boundary value changes meaning."""
+    rule = "C09-INTENC"
+    chk.rule(rule, "the one-byte range of each variable-length integer encoding is the same in the writer and in the reader")
+    tu = prog.tus["marsh.c"]
+    n = 0
+    for w, r in (("pushint", "readint"), ("push64", "read64")):
+        wf, rf = tu.funcs.get(w), tu.funcs.get(r)
+        if wf is None or rf is None:
+            raise AnalysisBroken("%s / %s not found" % (w, r))
+        chk.analysed(wf)
+        chk.analysed(rf)
+
+        def first_upper(fn, on_param):
+            for x in sorted((q for q in fn.nodes if q.k == "if"), key=lambda q: (q.ln, q.id)):
+                for y in x.kids[0].walk():
+                    if y.k == "bin" and y.op in ("<", "<=") and strip_casts(y.kids[1]).v is not None:
+                        l = strip_casts(y.kids[0])
+                        if on_param and is_ref(l) and l.name in [p["n"] for p in fn.params]:
+                            return strip_casts(y.kids[1]).v - (1 if y.op == "<" else 0), y
+                        if not on_param and l.k == "un" and l.op == "*":
+                            return strip_casts(y.kids[1]).v - (1 if y.op == "<" else 0), y
+            return None, None
+        wv, wn = first_upper(wf, True)
+        rv, rn = first_upper(rf, False)
+        if wv is None or rv is None:
+            raise AnalysisBroken("%s/%s: one-byte threshold not recognised" % (w, r))
+        n += 1
+        chk.instance(rule)
+        if wv == rv:
+            chk.ok(rule, "%s writes one byte for values <= %d and %s reads one byte for lead bytes <= %d" % (w, wv, r, rv))
+        else:
+            chk.violation(rule, "marsh.c", r, "%s/%s" % (w, r), rn.loc,
+                          "%s writes values up to %d as a single byte but %s treats lead bytes up to %d as single-byte values: "
+                          "the value(s) in between are read back as something else" % (w, wv, r, rv))
+    chk.floor(rule, 2, n)
+
+
+def _lookup_rule(chk, prog):
+    """Back-references are positions in the order objects were numbered.  The writer numbers an object kind either always
+    or never, so in the reader each arm of unmarshal_one must append to st->lookup on all of its successful paths or on
+    none: an arm that appends on some paths only shifts every later reference in the image."""
+    rule = "C09-LOOKUP"
+    chk.rule(rule, "each arm of unmarshal_one appends to the reference table on all of its successful paths or on none")
+    tu = prog.tus["marsh.c"]
+    fn = tu.funcs.get("unmarshal_one")
+    if fn is None:
+        raise AnalysisBroken("unmarshal_one not found")
+    chk.analysed(fn)
+    sws = [x for x in fn.nodes if x.k == "switch"]
+    if not sws:
+        raise AnalysisBroken("unmarshal_one: lead-byte switch not found")
+    sw = max(sws, key=lambda x: len(list(x.walk())))
+    cm = case_map(sw)
+    pushers = set()
+    for f in tu.funcs.values():
+        if any(x.in_macro("janet_v_push") and x.k == "mem" and x.field == "lookup" for x in f.nodes):
+            pushers.add(f.name)
+
+    def transfer(st, x):
+        if x.k == "mem" and x.field == "lookup" and x.in_macro("janet_v_push"):
+            return st | {"push"}
+        if x.k == "call" and x.callee in pushers and x.callee != fn.name:
+            return st | {"push"}
+        return st
+    leadvar = strip_casts(sw.kids[0])
+    leadname = leadvar.name if is_ref(leadvar) else None
+    per = {}
+    labels = sorted(set(l for ls in cm.values() for l in ls if l.startswith("LB_")))
+    entry = {}
+    for b in fn.blocks.values():
+        if b.label is not None and b.label.k == "case":
+            entry[case_name(b.label)] = b.id
+    for lab in labels:
+        if lab not in entry:
+            continue
+
+        def edge(st, blk, succ, cond, truth, lab=lab):
+            c = flow.compare_of(cond, truth)
+            if c is None or c[2] is None or leadname is None:
+                return st
+            l, op, r = strip_casts(c[0]), c[1], strip_casts(c[2])
+            if is_ref(l, leadname) and is_ref(r) and r.name.startswith("LB_") and op in ("==", "!="):
+                same = (r.name == lab)
+                if (op == "==" and not same) or (op == "!=" and same):
+                    return None
+            return st
+        IN, OUT, T = flow.forward_paths(fn, frozenset(), transfer, edge=edge, start=entry[lab])
+        for b, S in IN.items():
+            for x in fn.blocks[b].elems:
+                if x.k == "return" and lab in cm.get(x.id, ()):
+                    for ps in S:
+                        per.setdefault(lab, {}).setdefault("push" in ps, x)
+                S = T(S, x)
+    n = 0
+    for lab, d in sorted(per.items()):
+        n += 1
+        chk.instance(rule)
+        if len(d) == 2:
+            chk.violation(rule, "marsh.c", fn.name, lab, d[False].loc,
+                          "arm %s of unmarshal_one returns at %s without appending the object to st->lookup, but appends it on "
+                          "another path (%s): every later back-reference in such an image resolves to the wrong object" % (
+                              lab, d[False].loc, d[True].loc))
+        else:
+            chk.ok(rule, "%s: %s" % (lab, "always appends" if True in d else "never appends"))
+    chk.floor(rule, 10, n)
+
+
 def run(chk):
     prog = Program.load("default")
     _order_rule(chk, prog)
@@ -384,3 +571,6 @@ def run(chk):
     _fields_rule(chk, prog)
     _hooks_rule(chk, prog)
     _asm_rule(chk, prog)
+    _asmops_rule(chk, prog)
+    _intenc_rule(chk, prog)
+    _lookup_rule(chk, prog)
